@@ -7,13 +7,17 @@
 
    [IdxOK s]: for every registered bitmap index, for every offset i,
        i ∈ bits  <->  exists v, (target column's cell at i) = Some v  /\  rule i v = true.
-   The theorems hold for EVERY rule function, every column parameterisation, every transaction.
+   (for rules that are [cast_invariant]: they read an entry the way the column does, so that they
+   cannot tell a narrow integer handed to an int / uint column from its widened stored form -
+   trivially every rule on every other column; Widen.v proves it for the signed / unsigned
+   comparisons the generated cases register.)
+   The theorems hold for EVERY such rule function, every column parameterisation, every transaction.
    Replay and restore are commits of a transaction built from a logged commit ([replay] =
    [commit_blocks] of [txn_of_rec]), so they are instances of the same theorems.
    Domain: wf_row (the marker buffer holds only inserts and deletes) - true of every transaction
    the API can build; the length-changing string merge of finding K2 is outside the model. *)
 From stdpp Require Import gmap.
-From ColumnV Require Import Bytes Store StoreProofs StoreProofs6.
+From ColumnV Require Import Bytes Store StoreProofs StoreProofs6 Check Widen.
 
 Theorem c03_commit_keeps_indexes_exact : ∀ s t, wf_row t → IdxOK s → IdxOK (commit s t).
 Proof. exact commit_idx_ok. Qed.
@@ -29,12 +33,19 @@ Proof. exact create_index_ok. Qed.
 Print Assumptions c03_index_created_after_data_is_exact.
 
 Example c03_example :
-  let col := mkcol true (λ a b, match a, b with V8 x, V8 y => V8 (x + y) | _, _ => b end) (V8 0) ∅ in
+  let col := mkcol true (λ a b, match a, b with V8 x, V8 y => V8 (x + y) | _, _ => b end) (V8 0) id ∅ in
   let s0 := create_column coll0 1 col false in
   let s1 := create_computed s0 7 1 (XIndex (λ _ v, match v with V8 n => (5 <? n)%N | _ => false end) ∅) in
   let t := push (push (push txn0 1 (mkop KPut 5 (V8 3))) 1 (mkop KMerge 5 (V8 4))) 1 (mkop KPut 9 (V8 1)) in
   idx_of (commit s1 t) 5 = [7%N] ∧ idx_of (commit s1 t) 9 = [].
 Proof. vm_compute. done. Qed.
+
+Theorem c03_rules_read_like_the_column : ∀ m c (k : Z) (k' : N),
+  cast_invariant (col_int m) (λ _ v, eval_pred (PSigned c k) v) ∧
+  cast_invariant (col_uint m) (λ _ v, eval_pred (PUnsigned c k') v) ∧
+  ∀ col rule, ccast col = id → cast_invariant col rule.
+Proof. intros. split; [apply signed_rule_invariant|]. split; [apply unsigned_rule_invariant|apply id_rule_invariant]. Qed.
+Print Assumptions c03_rules_read_like_the_column.
 
 (* over whole histories: in every state reachable from the empty collection by admissible
    histories (StoreProofs6.history_ok) the invariant holds *)
